@@ -12,6 +12,7 @@ i_, j_, r_ = Int('i'), Int('j'), Int('r')
 COLOF = ML.COLOF
 colof_axioms = ML.colof_axioms
 RES = z3.Function('RES', IntS, Mat)
+ZCOL = z3.Function('ZCOL', Mat, IntS, Mat)              # the matrix with column c set to zero (the store `xnew[:, c] = 0`)
 
 def local_axioms():
     """facts about columns, zero matrices and 1x1 matrices used only here (all hold in the standard model of matrices)"""
@@ -27,7 +28,11 @@ def local_axioms():
             ForAll([A, n, m], Implies(And(rows(A) == n, cols(A) == m), sub(A, Zero(n, m)) == A), patterns=[sub(A, Zero(n, m))]),
             ForAll([c, n, m], smul(c, Zero(n, m)) == Zero(n, m), patterns=[smul(c, Zero(n, m))]),
             ForAll([n, m], Implies(And(n >= 0, m >= 0), T(Zero(n, m)) == Zero(m, n)), patterns=[T(Zero(n, m))]),
-            ForAll([A], Implies(And(rows(A) == 1, cols(A) == 1), A == smul(tr(A), Id(1))), patterns=[tr(A)])]                # spec: residual after projecting out the first i (normalised) columns
+            ForAll([A], Implies(And(rows(A) == 1, cols(A) == 1), A == smul(tr(A), Id(1))), patterns=[tr(A)]),
+            # zeroing a column: shape kept; the other columns kept; zeroing a column that is already zero changes nothing (column-wise extensionality)
+            ForAll([A, i], And(rows(ZCOL(A, i)) == rows(A), cols(ZCOL(A, i)) == cols(A)), patterns=[ZCOL(A, i)]),
+            ForAll([A, i, n], Implies(And(0 <= n, n < cols(A)), COLOF(ZCOL(A, i), n) == If(n == i, Zero(rows(A), 1), COLOF(A, n))), patterns=[COLOF(ZCOL(A, i), n)]),
+            ForAll([A, i], Implies(COLOF(A, i) == Zero(rows(A), 1), ZCOL(A, i) == A), patterns=[ZCOL(A, i)])]                # spec: residual after projecting out the first i (normalised) columns
 
 def norm_stub(I, a, axis=None, **kw):
     npstubs.used('np.linalg.norm (Frobenius / column norm of an (n,1) matrix)')
@@ -54,6 +59,18 @@ def extend_ext(ext):
         npstubs.used('np.linalg.pinv')
         A = I.A(a); return ML.mk(I, ML.pinv(ML.mat_of(I, a)), (A.shape[1], A.shape[0]))
     ext['modules']['np'].linalg.pinv = pinv_stub
+    prev_set = ext['arr_setitem']
+    def setitem(I, b, ix, v, node=None):
+        # `M[:, c] = 0` on a matrix: the matrix with column c zeroed
+        if ML.is_mat(I, b) and isinstance(ix, tuple) and len(ix) == 2 and isinstance(ix[0], slice) and ix[0] == slice(None) and not isinstance(ix[1], (slice, ArrRef, list, tuple)) \
+                and not isinstance(v, ArrRef) and not is_sym(v) and v == 0:
+            A = I.A(b); c = tz(ix[1])
+            I.ob('index:zeroed-column-in-range', And(0 <= c, c < tz(A.shape[1])), kind='index')
+            M2 = ZCOL(A.tag[1], c)
+            I.st.heap[b.id] = ArrVal(A.shape, lambda i, j: at(M2, tz(i), tz(j)), RealS, ('mat', M2))
+            return
+        return prev_set(I, b, ix, v, node)
+    ext['arr_setitem'] = setitem
     ext['arr_attrs'] = dict(ext['arr_attrs'])
     prev = ext['arr_attrs']['astype']
     ext['arr_attrs']['astype'] = lambda I, a: (lambda I2, dt, **k: a if ML.is_mat(I2, a) else prev(I2, a)(I2, dt, **k))
@@ -82,14 +99,18 @@ def u_x_orth(copy):
         I.assume(Implies(Not(big), RES(1) == sub(Xm, mul(col, mul(T(col), Xm)))))
         r = I.call_func(I.repo.get(q), [], dict(x1=X, c=c, tol=tol, copy=copy))
         Rm = ML.mat_of(I, r)
-        I.ob('post[C07]:result-is-the-input-with-the-selected-column-projected-out', Rm == RES(1), kind='post')
+        I.ob('post[C07]:result-is-the-input-with-the-selected-column-projected-out-and-then-zeroed-exactly', Rm == ZCOL(RES(1), c), kind='post')
         I.ob('post[C07]:copy-flag:' + ('input-left-untouched-and-a-new-array-returned' if copy else 'input-modified-in-place-and-returned'),
              BoolVal((r.id != X.id and ML.mat_of(I, X).eq(Xm)) if copy else (r.id == X.id)), kind='post')
         # orthogonality: in the normalising branch the selected direction is annihilated: c^T R = 0, and the selected column of R vanishes
         I.assume(big); I.assume(nrm > 0)
         hyp = mul(T(col), col) == smul(nrm * nrm, Id(1))          # ||col||^2 as a 1x1 matrix (definition of the Frobenius norm of a column)
         h0 = And(rows(mul(T(col), col)) == 1, cols(mul(T(col), col)) == 1, tr(mul(T(col), col)) == nrm * nrm)
-        I.ob('step:trace-of-the-1x1-product-is-the-squared-norm', h0, kind='lemma'); I.assume(h0)
+        ia = And(fro2(col) == tr(mul(T(col), col)), fro2(col) >= 0)                  # instances at `col` of the matrix-layer axioms fro2(A) = tr(A^T A) >= 0
+        ib = Implies(fro2(col) >= 0, And(nrm >= 0, nrm * nrm == fro2(col)))         # instance of the square-root axiom (nrm is sqrt(fro2(col)) by definition)
+        I.assume(ia); I.assume(ib)
+        I.ob('step:trace-of-the-1x1-product-is-the-squared-norm:dimensions', And(rows(mul(T(col), col)) == 1, cols(mul(T(col), col)) == 1), kind='lemma')
+        I.ob('step:trace-of-the-1x1-product-is-the-squared-norm', tr(mul(T(col), col)) == nrm * nrm, kind='lemma', using=[ia, ib]); I.assume(h0)
         I.ob('step:squared-norm-of-the-column-as-a-1x1-product', hyp, kind='lemma'); I.assume(hyp)
         inv = 1 / nrm
         I.assume(And(inv * nrm == 1, inv * (nrm * nrm) == nrm, nrm * inv == 1))      # arithmetic of the reciprocal of a positive number
@@ -97,10 +118,15 @@ def u_x_orth(copy):
         I.ob('step:selected-column-times-its-unit-vector-is-its-norm', g1, kind='lemma'); I.assume(g1)
         g2 = mul(T(col), mul(ch, mul(T(ch), Xm))) == mul(T(col), Xm)
         I.ob('step:projection-onto-the-unit-vector-reproduces-the-component-along-the-column', g2, kind='lemma'); I.assume(g2)
-        I.ob('post[C07]:residual-is-orthogonal-to-the-selected-column', mul(T(col), Rm) == ML.Zero(1, m), kind='post')
         Zn1 = ML.Zero(n, 1)
         g3 = mul(ch, mul(T(ch), col)) == col
         I.ob('step:the-column-is-its-own-projection', g3, kind='lemma'); I.assume(g3)
+        g4 = COLOF(RES(1), c) == Zn1
+        I.ob('step:selected-column-of-the-projected-input-is-zero (the explicit zeroing only removes round-off)', g4, kind='lemma'); I.assume(g4)
+        I.assume(Rm == ZCOL(RES(1), c))
+        g5 = Rm == RES(1)
+        I.ob('post[C07]:result-is-the-input-with-the-selected-column-projected-out', g5, kind='post'); I.assume(g5)
+        I.ob('post[C07]:residual-is-orthogonal-to-the-selected-column', mul(T(col), Rm) == ML.Zero(1, m), kind='post')
         I.ob('post[C07]:selected-column-of-the-result-is-zero', COLOF(Rm, c) == Zn1, kind='post')
         v = I.fresh('v', Mat); I.assume(And(rows(v) == n, cols(v) == 1))
         # induction step for all earlier selections: a direction orthogonal to the input stays orthogonal to the result
@@ -136,10 +162,21 @@ def u_projector_view(copy):
         I.assume(RES(0) == Xm); I.assume(RES(1) == sub(Xm, mul(ch, mul(T(ch), Xm))))
         r = I.call_func(I.repo.get(q), [], dict(x1=X, c=c, tol=tol, copy=copy))
         Rm = ML.mat_of(I, r)
-        g = Rm == RES(1)
-        I.ob('post[C07]:result-is-the-input-with-the-selected-column-projected-out', g, kind='post'); I.assume(g)
+        g0 = Rm == ZCOL(RES(1), c)
+        I.ob('post[C07]:result-is-the-input-with-the-selected-column-projected-out-and-then-zeroed-exactly', g0, kind='post'); I.assume(g0)
         inv_ = 1 / nrm
         I.assume(And(inv_ * nrm == 1, inv_ * (nrm * nrm) == nrm, nrm * inv_ == 1, inv_ * inv_ * (nrm * nrm) == 1))      # arithmetic of the reciprocal of a positive number
+        ia = And(fro2(col) == tr(mul(T(col), col)), fro2(col) >= 0); ib = Implies(fro2(col) >= 0, And(nrm >= 0, nrm * nrm == fro2(col)))      # axiom instances at `col` (see u_x_orth)
+        I.assume(ia); I.assume(ib)
+        I.ob('step:pre:trace-is-the-squared-norm', tr(mul(T(col), col)) == nrm * nrm, kind='lemma', using=[ia, ib]); I.assume(tr(mul(T(col), col)) == nrm * nrm)
+        for nm, f in [('trace-of-the-1x1-product-is-the-squared-norm', And(rows(mul(T(col), col)) == 1, cols(mul(T(col), col)) == 1, tr(mul(T(col), col)) == nrm * nrm)),
+                      ('squared-norm-of-the-column-as-a-1x1-product', mul(T(col), col) == smul(nrm * nrm, Id(1))),
+                      ('selected-column-times-its-unit-vector-is-its-norm', mul(T(col), ch) == smul(nrm, Id(1))),
+                      ('the-column-is-its-own-projection', mul(ch, mul(T(ch), col)) == col),
+                      ('selected-column-of-the-projected-input-is-zero (the explicit zeroing only removes round-off)', COLOF(RES(1), c) == ML.Zero(n, 1))]:
+            I.ob('step:pre:' + nm, f, kind='lemma'); I.assume(f)
+        g = Rm == RES(1)
+        I.ob('post[C07]:result-is-the-input-with-the-selected-column-projected-out', g, kind='post'); I.assume(g)
         P2 = sub(Pi, mul(ch, T(ch)))
         steps = [('trace-of-the-1x1-product-is-the-squared-norm', And(rows(mul(T(col), col)) == 1, cols(mul(T(col), col)) == 1, tr(mul(T(col), col)) == nrm * nrm)),
                  ('squared-norm-of-the-column-as-a-1x1-product', mul(T(col), col) == smul(nrm * nrm, Id(1))),
